@@ -95,7 +95,7 @@ def e1_case(ctx, m, args):
     impl = lpdump.dump_impl(m.solver, e1err.colkey(m, ids))
     req = e1err.request("klae", m, ids, args)
     d = e1.compare(ctx, "E1_kLeastAbsErrors_LP", "klae", m, impl, req, args)
-    if d:
+    if d and ctx.engines.get("E1_kLeastAbsErrors_LP", {}).get("disagreements", 0) <= 3:   # keep room for concrete failing inputs
         ctx.report("E1 correspondence broken: LP of kLeastAbsErrors differs from ErrEnc.encode_klae: " + "; ".join(d[:3]),
                    {"class": "kLeastAbsErrors", "args": errlib.describe(args), "diff": d[:12]}, concrete=False)
     return impl, d
@@ -237,13 +237,37 @@ def witness_12(ctx):
         ctx.case(["witness-12"], nontrivial=True)
 
 
+def witness_6(ctx, cls_name="kLeastAbsErrors"):
+    """node weights, additional start = additional end: the optimum uses the single-node route [v3] (DESIGN §6 #6)"""
+    import flowpaths as fp
+    G = nx.DiGraph()
+    for v, f in (("v2", 1.5), ("v1", 0.75), ("v3", 1.25)):
+        G.add_node(v, flow=f)
+    G.add_node("v0")
+    G.add_edges_from([("v2", "v1"), ("v2", "v3"), ("v2", "v0"), ("v3", "v1")])
+    args = dict(G=G, flow_attr="flow", flow_attr_origin="node", k=3, weight_type=float, additional_starts=["v3"], additional_ends=["v3"],
+                solver_options=dict(errlib.SOLVER))
+    m = getattr(fp, cls_name)(**errlib.clean_args(args)); m.solve()
+    if m.is_solved():
+        if cls_name == "kLeastAbsErrors":
+            check_solution(ctx, cls_name, args, m, False, eng="E2_witness")
+        else:
+            from engines import c08
+            c08.check_solution(ctx, cls_name, args, m, False, eng="E2_witness")
+        ctx.case(["witness-6", cls_name], nontrivial=True)
+
+
 def run(ctx):
     lpdump.install()
     ctx.rule = ("kLeastAbsErrors on random DAGs (<= 6 nodes) with arbitrary non-negative weights (perturbed superpositions or random values; int / dyadic float), "
                 "k in 1..3, ignore sets, error_scaling incl. 0 and 1/2, additional starts/ends, subpath constraints, solution_weights_superset, edge and node origin; "
                 "tiny stream: <= 6 edges, weights <= 4, integer type, compared with the exhaustive optimum; cyclic stream: kLeastAbsErrorsCycles on <= 5-node digraphs. "
                 "non-trivial = LP has more than 8 rows (at least one product block and error rows) / graph has a cycle")
-    witness_12(ctx)
+    for wfun in (witness_12, witness_6):
+        try:
+            wfun(ctx)
+        except Exception as e:
+            ctx.report(f"{wfun.__name__}: the recorded witness instance raised {e!r}", {"witness": wfun.__name__})
     run_dag(ctx, ctx.budget(300, 6000), tiny=False)
     run_dag(ctx, ctx.budget(200, 5000), tiny=True)
     run_cyclic(ctx, ctx.budget(60, 1500))
